@@ -267,6 +267,11 @@ fn run_fit(inst: &Inst, max_iter: usize) -> Result<Result<Fit, String>, String> 
                 let yr: Vec<f64> = inst.y.iter().rev().cloned().collect();
                 let _ = g.fit(&inst.x, &yr, 25);
             }
+            3 => {
+                // a copy of the configured model is the model that is fitted
+                let copy = g.clone();
+                drop(std::mem::replace(&mut g, copy));
+            }
             _ => {}
         }
         match g.fit(&inst.x, &inst.y, max_iter) {
@@ -292,6 +297,7 @@ fn judge(run: &Run, inst: &Inst, max_iter: usize, has_mle: bool) {
     let desc = || format!("{} max_iter={}{}", inst.describe(), max_iter, match hist {
         1 => " [same object after a fit with max_iter=1]",
         2 => " [same object after a fit to the reversed response]",
+        3 => " [a clone of the configured model]",
         _ => "",
     });
     if hist != 0 {
@@ -474,6 +480,7 @@ pub fn run(run: &Run) {
                                         if code % 4 == 1 {
                                             with_history(1, || judge(run, &inst, 25, has_mle));
                                             with_history(2, || judge(run, &inst, 25, has_mle));
+                                            with_history(3, || judge(run, &inst, 25, has_mle));
                                         }
                                     } else {
                                         // quick: the full budget on every instance, small budgets on a third
@@ -488,6 +495,8 @@ pub fn run(run: &Run) {
                                             with_history(1, || judge(run, &inst, 25, has_mle));
                                         } else if code % 8 == 6 {
                                             with_history(2, || judge(run, &inst, 25, has_mle));
+                                        } else if code % 8 == 7 {
+                                            with_history(3, || judge(run, &inst, 25, has_mle));
                                         }
                                     }
                                 }
@@ -557,6 +566,7 @@ pub fn run(run: &Run) {
                             if tol == 1e-12 {
                                 with_history(1, || judge(run, &inst, 50, has_mle));
                                 with_history(2, || judge(run, &inst, 50, has_mle));
+                                with_history(3, || judge(run, &inst, 50, has_mle));
                             }
                         }
                     }
